@@ -9,7 +9,7 @@ CHECKS = {
     'C10': {
         'engine': 'E1', 'level': 'exploration', 'design_ref': 'DESIGN.md §3 C10',
         'technique': 'bounded-exhaustive enumeration of strings (all code points x 7 contexts; all words <=3 over 14 chars) on the real escape()/parser, against an independent CSS identifier model and a decoy document',
-        'text': 'Every Unicode code point (thorough: all 1 114 112; quick: 0-0x2FFF, every class boundary, astral picks) in seven positions, plus all short words over a 14-character alphabet of troublemakers, is escaped, re-read by an independent CSS-Syntax identifier consumer and by soupsieve, and used to select among decoys. Exhaustive over the stated space; says nothing about longer strings mixing more than three special characters.',
+        'text': 'Every Unicode code point (thorough: all 1 114 112; quick: the whole BMP 0-0xFFFF, every class boundary, astral picks) in seven positions, plus all short words over a 14-character alphabet of troublemakers, is escaped, re-read by an independent CSS-Syntax identifier consumer and by soupsieve, and used to select among decoys. Exhaustive over the stated space; says nothing about longer strings mixing more than three special characters.',
         'note': 'bs4 stores attribute values verbatim for API-built documents; the reference identifier consumer (vf/ref/ident.py) is trusted; surrogates are expected to round-trip unchanged as the property states.',
     },
 }
